@@ -25,7 +25,8 @@ BUDGET_S = {"quick": 120, "thorough": 1500}
 RULE = ("all 2^11 section-flag combinations x every PCode member (exhaustive for one content seed per pair in quick, "
         "8 in thorough) with section contents generated from the declarative template, + 3 byte mutants per payload "
         "(compared only when the template still accepts them). distinct_nontrivial = distinct (flag combination, PCode) "
-        "pairs on which both decoders were compared and agreed")
+        "pairs on which both decoders were compared and agreed"
+        ". Round-5 additions: the template's plain-data form must re-encode to the payload too; generated payloads are written into viewer object cache files (independent writer hv/vocache_fs.py) together with entries at the format's size limits (1, 9999, 10000 valid; 0 and 10001 dataless) and read back through RegionViewerObjectCache: every valid entry byte-for-byte, then through both decoders")
 ASSUMPTIONS = [
     "well-formed = encodable by the declarative template with an object kind from the PCode enum; payloads whose kind byte "
     "is outside the enum are counted separately (the fast path deliberately builds the enum member)",
@@ -37,7 +38,7 @@ ASSUMPTIONS = [
 MUST_REACH = {"flag_pcode_pairs_covered": 2048, "compared": 3000, "reencoded_identical": 3000, "mutants_compared": 300,
               "pcodes_covered": 4, "te_face_bitfields_checked": 100, "fast_results_scribbled": 100,
               "reencoded_identical_plain_data_form": 3000, "cache_files_read": 5, "cache_entries_at_size_limits": 5,
-              "compared_from_cache_file": 50}
+              "compared_from_cache_file": 50, "special_rotations": 300}
 
 SER = T.ObjectUpdateCompressedDataSerializer
 TEMPLATE = SER.TEMPLATE
@@ -239,9 +240,15 @@ def mutate(rng, p: bytes):
     return bytes(b)
 
 
+# rotations with particular geometry: exact half turns (the rebuilt fourth component is exactly zero), a vector part that is
+# slightly over-long, identity, negative components
+SPECIAL_ROTATIONS = [(0.0, 0.0, 1.0), (1.0, 0.0, 0.0), (0.0, 1.0, 0.0), (0.6, 0.8, 0.0), (0.0, 0.0, 0.0), (0.0, 0.0, -1.0),
+                     (0.7071067690849304, 0.7071067690849304, 0.0), (0.6, 0.8, 0.1), (-0.5, -0.5, -0.5)]
+
+
 def one_case(ctx, flags, pcode, cseed):
-    d = gen_spec.Deriver(random.Random(cseed), size_budget=16,
-                         top_overrides={"Flags": T.CompressedFlags(flags), "PCode": pcode})
+    overrides = {"Flags": T.CompressedFlags(flags), "PCode": pcode}
+    d = gen_spec.Deriver(random.Random(cseed), size_budget=16, top_overrides=overrides)
     wit = {"flags": flags, "pcode": int(pcode), "content_seed": cseed}
     for attempt in range(6):
         try:
@@ -249,10 +256,13 @@ def one_case(ctx, flags, pcode, cseed):
             break
         except gen_spec.Unsupported:
             ctx.count("unsupported_values")
-            d = gen_spec.Deriver(random.Random(cseed * 31 + attempt + 1), size_budget=16,
-                                 top_overrides={"Flags": T.CompressedFlags(flags), "PCode": pcode})
+            d = gen_spec.Deriver(random.Random(cseed * 31 + attempt + 1), size_budget=16, top_overrides=overrides)
     else:
         return
+    if cseed % 4 == 0:
+        from hippolyzer.lib.base.datatypes import Quaternion
+        v["Rotation"] = Quaternion(*(gen_spec.f32(c) for c in SPECIAL_ROTATIONS[(cseed // 4) % len(SPECIAL_ROTATIONS)]))
+        ctx.count("special_rotations")
     try:
         payload = bytes(SER.serialize(_BLOCK, v))
     except Exception as e:
